@@ -54,7 +54,8 @@ BufA == {"none", "buffers", "reuse", "alias"}
 (* second call the inputs of the FIRST call (roles prev.<r>) are unchanged too, and after every *)
 (* call the storage reachable from the work-space structure (role IS) is disjoint from the      *)
 (* storage of every input (unless the caller aliased them, mode "alias").                       *)
-PrevName == [A |-> "prev.A", b |-> "prev.b", a |-> "prev.a", matrix |-> "prev.matrix", x |-> "prev.x"]
+PrevName == [A |-> "prev.A", b |-> "prev.b", a |-> "prev.a", matrix |-> "prev.matrix", x |-> "prev.x",
+             submatrix |-> "prev.submatrix"]
 GivensKernel(name) == A(name, <<"c", "s">>, <<"A", "t1", "t2">>, <<>>, <<>>, NoIS, "")
 Optimizer(name, ro, opts) == A(name, ro, <<>>, <<>>, opts, NoIS, "")
 HCM == <<"Hook", "Constraints", "MaxIterations">>
@@ -71,7 +72,8 @@ Algorithms == {
   A("householderBidiagonalization.Run", <<"a">>, <<>>, <<"IS.A", "IS.U", "IS.V", "IS.X", "IS.Nu", "IS.T4">>,
                                                                             <<"ComputeU", "ComputeV">>,             BufA, "a"),
   A("householderTridiagonalization.Run", <<"a">>, <<>>, <<"IS.A", "IS.U", "IS.X", "IS.Nu", "IS.T4">>, <<"ComputeU">>, BufA, "a"),
-  A("matrixInverse.Run",      <<"matrix">>,  <<>>, <<"IS.Id", "IS.A", "IS.B", "IS.L", "IS.D">>, <<"PositiveDefinite", "UpperTriangular">>, Buf, ""),
+  A("matrixInverse.Run",      <<"matrix", "submatrix">>, <<>>, <<"IS.Id", "IS.A", "IS.B", "IS.L", "IS.D">>,
+                              <<"PositiveDefinite", "UpperTriangular", "Submatrix">>, Buf, ""),   \* Submatrix: passed through to gaussJordan
   A("msqrt.Run",              <<"matrix">>,  <<>>, <<>>,                                     <<>>,                               NoIS, ""),
   A("msqrtInv.Run",           <<"matrix">>,  <<>>, <<>>,                                     <<>>,                               NoIS, ""),
   A("qrAlgorithm.Run",        <<"a">>,       <<>>, <<"IS.H", "IS.U", "IS.T4", "IS.X", "IS.Nu">>, <<"ComputeU", "Symmetric">>,    BufA, "a"),
@@ -141,12 +143,15 @@ EstEntries == {
 
 MayModify(e, mode) == e.rw \o (IF mode = "none" THEN <<>> ELSE e.is)
                            \o (IF mode = "alias" THEN <<e.alias>> ELSE <<>>)
-MustKeep(e, mode)  == SelectSeq(e.ro, LAMBDA r : mode # "alias" \/ r # e.alias)
+KeepObjs(e, mode)  == SelectSeq(e.ro, LAMBDA r : mode # "alias" \/ r # e.alias)
                       \o (IF mode = "reuse" THEN [i \in 1..Len(e.ro) |-> PrevName[e.ro[i]]] ELSE <<>>)
+(* the variadic option list is an input too: the caller may keep the slice it spreads (opts...) and  *)
+(* use it again; role "opts" = its length, every element and the spare capacity behind them          *)
+MustKeep(e, mode)  == KeepObjs(e, mode) \o (IF e.fam = "alg" THEN <<"opts">> ELSE <<>>)
 (* share sets that must be empty after the call *)
 Disjoint(e, mode) ==
   IF e.fam = "alg" /\ mode \in {"buffers", "reuse", "alias"}
-  THEN LET k == MustKeep(e, mode) IN [i \in 1..Len(k) |-> <<"IS", k[i]>>]
+  THEN LET k == KeepObjs(e, mode) IN [i \in 1..Len(k) |-> <<"IS", k[i]>>]
   ELSE IF e.name \in {"dist.Clone", "dist.CloneRev", "estimator.Clone", "estimator.CloneRev"}
   THEN << <<"source", "clone">> >>       \* a clone reaches no storage that its source reaches (scratch included)
   ELSE <<>>
@@ -191,10 +196,10 @@ Spec == Init /\ [][Next]_vars
 (* every input is in the frame unless the caller opted into in-place work; nothing is both kept and writable *)
 FrameOK ==
   /\ Rng(c.keep) \cap Rng(c.may) = {}
-  /\ c.mode \notin {"alias", "reuse"} => \A e \in AllEntries : e.name = c.entry => Rng(e.ro) = Rng(c.keep)
+  /\ c.mode \notin {"alias", "reuse"} => \A e \in AllEntries : e.name = c.entry => Rng(e.ro) = Rng(c.keep) \ {"opts"}
   /\ c.mode = "reuse" => \A e \in AllEntries : e.name = c.entry =>
-        /\ Rng(e.ro) \subseteq Rng(c.keep) /\ Len(c.keep) = 2 * Len(e.ro)
-        /\ Len(c.disjoint) = Len(c.keep)
+        /\ Rng(e.ro) \subseteq Rng(c.keep) /\ Len(c.keep) = 2 * Len(e.ro) + 1
+        /\ Len(c.disjoint) = 2 * Len(e.ro)
   /\ c.mode = "none" => \A i \in 1..Len(c.may) : \A e \in AllEntries : e.name = c.entry => c.may[i] \in Rng(e.rw)
 PrintCase == Emit => PrintT(ToJson(c))
 =============================================================================
